@@ -153,6 +153,20 @@ pub fn case_json(src: &str, ctx: &Ctx) -> J {
 /// Evaluate `src` mutably in the real context built from `ctx` and compare (result, final
 /// context, call log) with the reference interpreter run on the reference parse of `src`.
 pub fn check_source(prop: &str, src: &str, ctx: &Ctx, expected_ast: Option<&Ast>, l: &mut Local) -> Outcome {
+    check_source_with(prop, src, ctx, expected_ast, &["x", "y", "z", "w", "a", "b", "c"], true, l)
+}
+
+/// As `check_source`, with the variable names probed in the final context and whether C08's own
+/// non-triviality labels are recorded (other properties reuse the comparison with their own rule).
+pub fn check_source_with(
+    prop: &str,
+    src: &str,
+    ctx: &Ctx,
+    expected_ast: Option<&Ast>,
+    probe_names: &[&str],
+    c08_labels: bool,
+    l: &mut Local,
+) -> Outcome {
     let toks = match tok::lex(src) {
         Ok(o) if !o.d6 => o.toks,
         _ => return Ok(()),
@@ -208,14 +222,16 @@ pub fn check_source(prop: &str, src: &str, ctx: &Ctx, expected_ast: Option<&Ast>
     }
     let (n_assign, n_calls) = effect_count(&ast);
     let failing = exp.result.is_err();
-    if n_assign + n_calls >= 2 && (failing && !exp.log.is_empty() || exp.log.len() >= 3 || (failing && exp.assignments_reached >= 1)) {
+    if c08_labels && n_assign + n_calls >= 2 && (failing && !exp.log.is_empty() || exp.log.len() >= 3 || (failing && exp.assignments_reached >= 1)) {
         l.label(">= 2 effects with a failure after an effect, or >= 3 logged calls");
         l.nontrivial_key(src);
     }
-    if failing {
-        l.label("evaluation fails");
-    } else {
-        l.label("evaluation succeeds");
+    if c08_labels {
+        if failing {
+            l.label("evaluation fails");
+        } else {
+            l.label("evaluation succeeds");
+        }
     }
     if !result_ok {
         let what = match (&exp.result, &got_rr) {
@@ -242,7 +258,7 @@ pub fn check_source(prop: &str, src: &str, ctx: &Ctx, expected_ast: Option<&Ast>
         };
         return fail(format!("{}/call log: {}", prop, what), log_describe(&exp.log), log_describe(&got_log), case_json(src, ctx), src.len());
     }
-    let probes: Vec<String> = ["x", "y", "z", "w", "a", "b", "c"].iter().map(|s| s.to_string()).collect();
+    let probes: Vec<String> = probe_names.iter().map(|s| s.to_string()).collect();
     let obs = observe(&real, &probes, &[]);
     take_log(&log);
     if let Some(d) = state_diff(&obs, &model) {
